@@ -251,12 +251,15 @@ fn gen_req_case(rng: &mut Rng, corpus: &Corpus) -> ReqCase {
     };
     // segments beyond the sub-aggregation flush threshold: mostly nested requests
     let multi_flush = corpus.docs.len() > 2048;
-    let r = g.rng.weighted(&[50, 10, 7, 3, 3, 10, 8, 6, if multi_flush { 45 } else { 5 }]);
+    // long runs of one value with a long mantissa: more metrics over the buckets of that field
+    let wide_runs = !corpus.wide_run_fields().is_empty()
+        || (corpus.docs.len() >= 30 && !corpus.absent_numeric_fields().is_empty());
+    let r = g.rng.weighted(&[50, 10, 7, 3, 3, 10, if wide_runs { 30 } else { 8 }, 6, if multi_flush { 45 } else { 5 }]);
     match r {
         0 => ReqCase::plain(g.gen_request(), Probe::None),
         1 => ReqCase::plain(vec![g.gen_terms_approx()], Probe::None),
         5 => ReqCase::focus(g.gen_terms_by_key(), false),
-        6 => ReqCase::focus(g.gen_same_field_metric(), false),
+        6 => ReqCase::focus(g.gen_same_field_metric(), wide_runs),
         7 => ReqCase::focus(g.gen_empty_parent_bucket(), false),
         8 => ReqCase::focus(g.gen_bucket_over_any_sub(), multi_flush),
         2 => {
@@ -668,11 +671,17 @@ fn case_fn(quick: bool) -> impl Fn(u64, &mut Rng, &mut Report) + Sync {
             }
             rep.observe("query_kind", match q { Q::All => "all", Q::Cat(_) => "term", Q::IRange(..) => "range" });
             rep.observe("probe", format!("{:?}", rc.probe));
+            if ri == 0 && !corpus.wide_run_fields().is_empty() {
+                rep.count("corpora_with_a_long_run_of_one_wide_value", 1);
+            }
             if !rc.focus.is_empty() {
                 rep.observe("focus_shape", rc.focus.clone());
                 rep.count(&format!("focus[{}]", rc.focus.split('/').next().unwrap_or("")), 1);
                 if corpus.docs.len() > 2048 {
                     rep.count("focus_requests_on_multi_flush_corpora", 1);
+                }
+                if rc.focus.ends_with("/wide-run") {
+                    rep.count("metric_requests_over_buckets_of_a_wide_run_field", 1);
                 }
             }
             let witness = json!({
@@ -885,7 +894,10 @@ fn main() {
          terms ordered by _key on every field type, top-level or below another bucket aggregation, with a per \
          segment cut-off (explicit segment_size or the default 10 x size below the number of distinct terms) or \
          without; a value bucket (terms / histogram / composite / filter) with extended_stats, stats, avg or sum \
-         of the same single-valued field (constant and nearly constant buckets of values whose sums are inexact); \
+         of the same single-valued field (constant and nearly constant buckets; fields holding a run of >= 30 \
+         equal values with a long f64 mantissa - ns timestamps, integers beyond 2^53, non-dyadic fractions - are \
+         preferred and such corpora get four times as many of these requests), or of a field that no document has \
+         with a random long-mantissa `missing` value (every document contributes the same value); \
          a range with buckets no document falls into x one sub aggregation of a uniformly chosen kind; any bucket \
          aggregation x one sub aggregation of a uniformly chosen kind. In quick every 12th corpus (thorough: one in \
          27) has 2048 k + 1..48 documents, so that one-segment partitions feed their sub aggregations by a full \
